@@ -80,8 +80,20 @@ func (fr *Frame) safety(st *State, kind string, goal Term, pos token.Pos, descr 
 		top = top.parent
 	}
 	if top.spec != nil && top.spec.Flags["nosafety"] != "" {
-		fr.fc.assume(st, goal)
-		return
+		// "flag nilcheck=a,b": dereferences of the named parameters are still checked (a function
+		// documented to tolerate a nil receiver/argument must test it before using it)
+		checked := false
+		if kind == "nil" && fr == top {
+			for _, n := range strings.Split(top.spec.Flags["nilcheck"], ",") {
+				if n != "" && goal.S == fmt.Sprintf("(not (is_PNull arg_%s))", identOf(n)) {
+					checked = true
+				}
+			}
+		}
+		if !checked {
+			fr.fc.assume(st, goal)
+			return
+		}
 	}
 	line := 0
 	if pos.IsValid() {
